@@ -179,7 +179,10 @@ def check_stack(parts, json_given, print_results, scratch):
             docs = parse_concat_json(f.read())
     except Exception as e:  # noqa: BLE001
         return fail(f"report file unreadable: {e!r}")
-    got = [d.get("severity") for d in docs]
+    flat = []
+    for d in docs:  # one document per pickle, or one array of them: both are "the JSON report"
+        flat.extend(d if isinstance(d, list) else [d])
+    got = [d.get("severity") if isinstance(d, dict) else None for d in flat]
     if got != sev:
         return fail(f"report severities {got} != verdicts {sev}")
     return None, "checked", ranks
